@@ -13,6 +13,7 @@
 import Dirk.Lemmas.ImportProofs
 import Dirk.Lemmas.PropInv
 import Dirk.Lemmas.ImportCmd
+import Dirk.Props.KernelsEq
 
 namespace Dirk
 
@@ -98,5 +99,14 @@ theorem C10_range_any (db : Db) : RangeOK db := rangeOK_any db
 theorem C10_import_command_keeps_invariants {s : Inst} (ha : AttInv s) (hp : PropInv s) (gvr : String) (f : IFile) :
     AttInv (step s (.importCmd gvr f)).1 ∧ PropInv (step s (.importCmd gvr f)).1 :=
   ⟨step_importCmd_attInv ha gvr f, step_importCmd_propInv hp gvr f⟩
+
+/-- **tie by translation.** The merge the theorems above are about is, entry by entry, the code translated on every run
+    from the Go source of `storeSlashingProtection` (package main): the value a key starts from (an earlier entry of the
+    file, else the existing store's record, else −1/−1/−1), the raise-only fold of each signed attestation and each signed
+    block, and the rejection of numbers that do not parse or are negative. (Not translated: public-key decoding and the
+    reading of the existing store, which `mergeStepGen` takes from the model.) -/
+theorem C10_kernel_is_source (db : Db) (m : PMap) (l : List FileEntry) :
+    mergeEntries db m l = l.foldlM (mergeStepGen db) m :=
+  mergeEntries_eq_gen db m l
 
 end Dirk
